@@ -55,6 +55,9 @@ const ENC = {
   mergeExt: (m, c) => { const n = c.fresh('I'), p1 = c.fresh('P'); const [x, y] = split(m); const [y1, y2] = split(y); return { type: n, decls: [`interface ${p1} { ${members(x)} }`, `interface ${n} { ${members(y1)} }`, `interface ${n} extends ${p1} { ${members(y2)} }`], map: m }; },
   ext2: (m, c) => { const n = c.fresh('I'), p1 = c.fresh('P'), p2 = c.fresh('Q'); const [x, y] = split(m); return { type: n, decls: [`interface ${p1} { ${members(x)} }`, `interface ${p2} { ${members(y)} }`, `interface ${n} extends ${p1}, ${p2} {}`], map: m }; },
   inter: (m, c) => { const [x, y] = split(m); const a = c.inner(x), b = c.inner(y); return { type: `${a.type} & ${b.type}`, decls: a.decls.concat(b.decls), map: a.map.concat(b.map) }; },
+  // only one side of the intersection goes through the inner operator: `{x} & Op<{y}>` / `Op<{x}> & {y}`
+  interLeftPlain: (m, c) => { const [x, y] = split(m); const b = c.inner(y); return { type: `${lit(x)} & ${b.type}`, decls: b.decls, map: x.concat(b.map) }; },
+  interRightPlain: (m, c) => { const [x, y] = split(m); const a = c.inner(x); return { type: `${a.type} & ${lit(y)}`, decls: a.decls, map: a.map.concat(y) }; },
   paren: (m, c) => { const i = c.inner(m); return { type: `(${i.type})`, decls: i.decls, map: i.map }; },
   exported: (m, c) => { const n = c.fresh('E'); return { type: n, decls: [`export interface ${n} { ${members(m)} }`], map: m }; },
   exportedAlias: (m, c) => { const n = c.fresh('E'); const i = c.inner(m); return { type: n, decls: i.decls.concat([`export type ${n} = ${i.type};`]), map: i.map }; },
